@@ -217,8 +217,11 @@ func (p *exeParser) readFragment() (sel Selection, err error) {
 					err = parseError(line, col, "type %s not defined", t.Name())
 				case *List, *NonNull:
 					err = parseError(line, col, "a type condition must be a named type, not %s", t.Name())
-				default:
+				case nil, *Object, *Interface, *Union, *Schema:
 					sel, err = p.readInline(t)
+				default:
+					// A scalar, enum or input type has no selections.
+					err = parseError(line, col, "a type condition must be an object, interface or union type, not %s", t.Name())
 				}
 			}
 		case "":
